@@ -182,13 +182,18 @@ CLAIMED = {
         "for members of any kind in any order; bundle_connection_refusals — compared with the real passes up to BundleFlattener on random types, instances, references and nested "
         "anonymous bundles: the bits on every flattened port, refusals). Everything beyond — the composition of the passes within a module and across the hierarchy — is decided by correspondence: Sem.src (Lean, declarative, no reference to any pass) vs "
         "Sem.pkg of the real package (Lean, netlister reading) vs the partition read from the spice text, plus leaf devices and "
-        "parameters, on generated designs over all constructs in three construction styles.",
+        "parameters, on generated designs over all constructs in three construction styles. "
+        "The passes composed (ModulePipe.lean: Orphanage, ConnTypes, SliceResolver, ConnTypesRepeat, OrphanageRepeat, export_module — the default pass list on a module of fragment F1, "
+        "put together from the models each pass has): module_connections_preserved — whenever the composition returns a module it declares the module's signals, has the designer's "
+        "instances in order with their targets and parameters, and on every port of every instance the netlisters read, bit i for bit i, the signal bits the designer's expression denotes "
+        "(any nesting, step, sign), with no hypothesis about intermediate states; the composition itself is compared with elaborate + to_proto by the module_pipe stream (random F1 modules "
+        "with planted faults: accepted vs refused, signal and port lists, instances, the bits read per connection).",
         note="Sem.src / Sem.pkg / the net solver are specifications executed by the driver (Design.lean, Pkg.lean, Nets.lean); the "
         "pass-by-pass preservation theorems for F3 (bundles, pairs, hierarchy) are not proved. vlsirtools' positional reading is modelled and validated "
         "against the netlist text on every design. Designs the unchanged code rejects although well-formed are listed in "
-        "designs.known_limitation and stepped around.",
+        "designs.known_limitation and stepped around. module_connections_preserved takes ModOK (one object per name, dict keys distinct: C18's coherence) as its hypothesis.",
         ref="DESIGN.md §6 C01",
-        technique="Lean 4 proof for F1 (resolver soundness by induction on fuel, export/read round trip) + declarative-semantics differential correspondence",
+        technique="Lean 4 proof for F1 (resolver soundness by induction on fuel, export/read round trip, composition of the pass models on one module) + declarative-semantics differential correspondence",
     ),
     "C06": dict(
         text="Proved in Lean: the exporter's depth-first module traversal lists every module exactly once and after everything it "
@@ -205,11 +210,14 @@ CLAIMED = {
         "earlier modules / declared external modules / primitives of the regenerated table, each target port connected exactly once, "
         "targets declared, in range and of the port's width) is a Lean definition *executed* on every package the real code returns: "
         "generated designs, the repository's examples, Series/MosStack/Wrapper over parameter ranges, a PDK-compiled design; plus "
-        "acceptance by from_proto and the spice and spectre netlisters.",
+        "acceptance by from_proto and the spice and spectre netlisters. "
+        "The passes composed (ModulePipe.lean): elaborated_module_is_EWF — what Orphanage, ConnTypes, SliceResolver and the two repeats leave of a module of fragment F1 whose namespace is a "
+        "namespace (ModOK) is EWF as soon as the exporter exports its connections, with no hypothesis about intermediate states — and module_pipeline_wf — whatever the composed pass list "
+        "plus export_module return has none of the module-level defects C06 lists, in whatever package it ends up; the composition is compared with elaborate + to_proto by the module_pipe stream.",
         note="checked_instance_is_instOK + orphanage_gives_sigsOK: an instance that passed ConnTypes and Orphanage and whose connections are resolved satisfies the instance part of EWF "
         "(hypothesis: what a module parents is what it declares — C18's coherence). The module-level parts of EWF (names, widths, directions) are evaluated on every explored design, not proved; module-name uniqueness and external-module declarations rest on the executed predicate. Primitive port table regenerated from /repo each run.",
         ref="DESIGN.md §6 C06",
-        technique="Lean 4 proof (traversal invariant by induction; width/range from C03/C01 lemmas) + executed Lean predicate on real packages",
+        technique="Lean 4 proof (traversal invariant by induction; width/range from C03/C01 lemmas; composition of the pass models establishing EWF) + executed Lean predicate on real packages",
     ),
     "C02": dict(
         text="Proved in Lean: a checking pass with its own pass class, placed after the last rewriting pass, runs on every module below "
@@ -225,7 +233,13 @@ CLAIMED = {
         "and its verdict compared with the model's). The other fault classes are decided by "
         "correspondence: single-fault mutants of valid generated designs (12 classes, sites drawn from every sub-connectable of every "
         "connection, top and deep, scalar/bus/slice/concat/reference/bundle/anonymous/array/pair) and generated ill-formed designs, with "
-        "the declarative Sem.src as judge of ill-formedness; elaborate, to_proto and netlist must all raise.",
+        "the declarative Sem.src as judge of ill-formedness; elaborate, to_proto and netlist must all raise. "
+        "The passes composed (ModulePipe.lean, fragment F1): module_accepts_only_wellformed — if the default pass list and the exporter return a module, every instance is of something defined, "
+        "has every port of it connected to something of the port's width, nothing else connected, every connection over the module's own signals — and module_faults_rejected — an undefined "
+        "target, an open port, a connection to a port that does not exist, a connection of another width or without a width (an index out of range, an empty or zero-step slice at any depth), "
+        "a signal the module does not declare: each, planted anywhere, makes the composition refuse; compared with elaborate + to_proto by the module_pipe stream (planted faults of each class). "
+        "Edits made after a completed export (reconnect to another width, widen a child's port, disconnect) are exported as they are: three recorded known findings (known_findings.json, "
+        "after-export:*), the root cause of the C08 repair-and-retry entries.",
         note="Of the checking passes MarkModules is not modelled in Lean (ConnTypes, Orphanage and ResolvePortRefs' refusals are); that the modelled checks together cover every "
         "fault class rests on the mutation correspondence. Clashing module names are an export-level fault: elaborate() alone is not required to notice them.",
         ref="DESIGN.md §6 C02",
